@@ -168,7 +168,8 @@ func (c2 *codecCtx) detailsOf(v ssa.Value, depth int) detailsShape {
 			}
 		}
 	case *ssa.Call:
-		if callee := sx.Callee(x); callee != nil && callee.Name() == "SafeDetails" && callee.Blocks != nil && depth < 2 {
+		// (SafeDetails() of the type, or an unexported helper of the package that builds the list for it)
+		if callee := sx.Callee(x); callee != nil && callee.Blocks != nil && depth < 3 && (callee.Name() == "SafeDetails" || (!sx.Exported(callee) && x.Parent() != nil && callee.Pkg == x.Parent().Pkg)) {
 			rets := sx.Returns(callee)
 			var shapes []detailsShape
 			for _, r := range rets {
@@ -298,6 +299,7 @@ func runCodec(c *core.Ctx, keep func(*codecPair) bool) {
 			encName = load.FnName(cp.Enc)
 			rets := sx.Returns(cp.Enc)
 			msgConstEmpty = true
+			var encShapes []detailsShape
 			for _, r := range rets {
 				if s, ok := sx.ConstString(r.Results[0]); !ok || s != "" {
 					msgConstEmpty = false
@@ -305,7 +307,7 @@ func runCodec(c *core.Ctx, keep func(*codecPair) bool) {
 				for _, o := range e.TraceRecv(r.Results[0], nil).List() {
 					collectRecv(o, msgDeps, 0)
 				}
-				det = cc.detailsOf(r.Results[1], 0)
+				encShapes = append(encShapes, cc.detailsOf(r.Results[1], 0))
 				pv := r.Results[2]
 				if !sx.IsNil(pv) {
 					payloadNil = false
@@ -319,6 +321,7 @@ func runCodec(c *core.Ctx, keep func(*codecPair) bool) {
 					}
 				}
 			}
+			det = mergeDetailShapes(encShapes)
 		} else if cp.ET != nil {
 			sh := shapes[cp.ET.Named]
 			for f := range sh.ErrFields {
@@ -773,4 +776,41 @@ func describeVals(vs []ssa.Value) string {
 		out = append(out, describeVal(v))
 	}
 	return strings.Join(out, ", ")
+}
+
+// mergeDetailShapes: the details an encoder can return over its several returns: every field that feeds any of
+// them; fixed positions only when all returns have them and agree in length.
+func mergeDetailShapes(shapes []detailsShape) detailsShape {
+	if len(shapes) == 1 {
+		return shapes[0]
+	}
+	ds := detailsShape{all: map[string]bool{}}
+	ds.positional = len(shapes) > 0
+	for _, s := range shapes {
+		for k := range s.all {
+			ds.all[k] = true
+		}
+		if !s.positional || len(s.elems) != len(shapes[0].elems) {
+			ds.positional = false
+		}
+	}
+	if ds.positional {
+		for i := range shapes[0].elems {
+			m := map[string]bool{}
+			var vals []ssa.Value
+			for _, s := range shapes {
+				for k := range s.elems[i] {
+					m[k] = true
+				}
+				if i < len(s.vals) {
+					vals = append(vals, s.vals[i]...)
+				}
+			}
+			ds.elems = append(ds.elems, m)
+			ds.vals = append(ds.vals, vals)
+		}
+	} else if len(shapes) > 0 {
+		ds.why = "the encoder's returns produce details of different shapes"
+	}
+	return ds
 }
